@@ -258,6 +258,13 @@ fn main() {
     let mut probes_u: Vec<String> = utf8.iter().map(|s| s.to_string()).collect();
     probes_u.extend(["ê", "\u{c0}", "丂", "😂", "caf", "cafe", "\u{10FFFF}"].iter().map(|s| s.to_string()));
     run_space(&mut ctx, "utf8", &utf8, if t { 5 } else { 4 }, &probes_u, 0);
+    // strings of 8 bytes and more whose first difference lies inside a full 8-byte word and is followed by further
+    // differences in the same word (a word-at-a-time comparison must still order them by the FIRST difference),
+    // with differences also at offsets 7/8 and 15/16
+    let words8: Vec<&str> = vec!["international", "interaction", "interactive", "internal", "interzonal", "abcdefgh", "abcdefgz", "abcdefghZ", "abcdefghiA", "abcdefgzaaaaaaaab", "abcdefgzaaaaaaaaa", "zbcdefga"];
+    let mut probes_w: Vec<String> = words8.iter().map(|s| s.to_string()).collect();
+    probes_w.extend(["inter", "internationale", "abcdefg", "abcdefgy", "zz"].iter().map(|s| s.to_string()));
+    run_space(&mut ctx, "words-of-8-bytes-and-more", &words8, if t { 4 } else { 3 }, &probes_w, 0);
     let mut sl: Vec<&str> = short.clone();
     sl.extend(long.iter());
     run_space(&mut ctx, "short+long", &sl, 3, &probes, short.len());
